@@ -271,20 +271,22 @@ def run(ix, R):
                 'scaleheight_profile': 'model.scaleheight_profile', 'altitude_profile': 'model.altitudeProfile',
                 'gravity_profile': 'model.gravity_profile', 'pressure_profile': 'model.pressureProfile'}
         got = {}
+        mp = f.params()[0]
         for n in walk_no_nested(f.node):
             if isinstance(n, ast.Assign) and isinstance(n.targets[0], ast.Subscript) and \
                     isinstance(n.targets[0].slice, ast.Constant):
-                got[n.targets[0].slice.value] = unparse(n.value)
+                # attribute path relative to the model parameter, whatever it is called
+                v = unparse(n.value)
+                got[n.targets[0].slice.value] = ('model' + v[len(mp):]) if v.startswith(mp + '.') else v
         bad = {k: got.get(k) for k, v in want.items() if got.get(k) != v}
         R.check('4.dict', 'TAB', site, 'each exported per-layer quantity is read from the model attribute of that name',
                 not bad, key=str(bad), detail='mismatched entries %s' % bad, loc=f.loc())
     site = SM + '::SimpleForwardModel.generate_profiles'
     with R.guard('4.mu', 'TAB', site, 'mu exported'):
         f = ix.func(site)
-        src = unparse(f.node)
-        R.check('4.mu', 'TAB', site, "generate_profiles adds 'mu_profile' = chemistry.muProfile to generate_profile_dict(self)",
-                "prof = generate_profile_dict(self)" in src and "prof['mu_profile'] = self.chemistry.muProfile" in src,
-                key='mu', detail='mu_profile export differs', loc=f.loc())
+        from sa.helpers import need
+        need(R, '4.mu', 'TAB', site, "generate_profiles adds 'mu_profile' = chemistry.muProfile to generate_profile_dict(self)", f,
+             ['V_p = generate_profile_dict(self)', "V_p['mu_profile'] = self.chemistry.muProfile", 'return V_p'])
     site = SM + '::SimpleForwardModel.altitudeProfile'
     with R.guard('4.alt', 'TAB', site, 'altitude getter'):
         f = ix.func(site)
@@ -320,6 +322,7 @@ MUTANTS = [
     ('minmax-swap', PP, "self._atm_min_pressure = atm_min_pressure\n        self._atm_max_pressure = atm_max_pressure", "self._atm_min_pressure = atm_max_pressure\n        self._atm_max_pressure = atm_min_pressure", '1.order'),
 ]
 EQUIVALENTS = [
+    ('dict-rename', UO, r're:\bout\b', 'profiles'),
     ('dz-form', PL, 'deltaz[i] = -1.0 * H[i - 1] * np.log(Pl[i] / Pl[i - 1])', 'deltaz[i] = H[i - 1] * np.log(Pl[i - 1] / Pl[i])'),
     ('layers-form', PP, 'self.pressure_profile = self.pressure_profile_levels[:-1] * np.sqrt(self.pressure_profile_levels[1:] / self.pressure_profile_levels[:-1])', 'lev = self.pressure_profile_levels\n        self.pressure_profile = np.sqrt(lev[1:] / lev[:-1]) * lev[:-1]'),
 ]
